@@ -30,6 +30,25 @@ class UserExc(Exception):
         return "UserExc(%r)" % (self.eid,)
 
 
+# Injected faults come in the exception types library code is most likely to intercept for its own purposes
+# (`except AttributeError` around an optional method, `except TypeError` around a fast path, `except KeyError` /
+# `LookupError` around a cache, ...).  The class is a function of the eid, so every family that varies the eid also
+# varies the type; identity (`eid`) and `isinstance(_, UserExc)` are unaffected.
+_TYPED = {}
+
+
+def user_exc(eid):
+    """the injected fault object for `eid`"""
+    bases = (None, AttributeError, TypeError, KeyError, ValueError, RuntimeError, LookupError, OSError)
+    base = bases[eid % len(bases)] if isinstance(eid, int) else None
+    if base is None or os.environ.get("VERIF_PLAIN_FAULTS"):
+        return UserExc(eid)
+    cls = _TYPED.get(base)
+    if cls is None:
+        cls = _TYPED[base] = type("User" + base.__name__, (UserExc, base), {})
+    return cls(eid)
+
+
 class UserBaseExc(BaseException):
     """An injected cancellation-like fault (not an Exception subclass)."""
 
@@ -115,6 +134,39 @@ def drive(coro, reply=None, max_steps=20000):
         pass
     res.exc = LivelockError("operation still suspended after %d steps; last token %r" % (max_steps, res.tokens[-1] if res.tokens else None))
     return res
+
+
+# ---------------------------------------------------------------------------------------------
+# async-generator finalisation behaves as under an event loop
+#
+# Without hooks, CPython closes an abandoned (dropped, still suspended) async generator synchronously the moment its
+# reference count reaches zero, which silently "releases" whatever it held.  Every event loop installs hooks
+# (sys.set_asyncgen_hooks) that instead *schedule* an aclose() for some later turn of the loop — so under a loop a
+# library generator that is merely dropped rather than closed leaves its sources open when the operation completes.
+# The harness therefore installs a finalizer hook that defers: the abandoned generator is parked until the observation
+# of the current case has been recorded, and only then closed (flush_deferred).
+
+DEFERRED = []
+
+
+def _defer_finalizer(agen):
+    DEFERRED.append(agen)
+
+
+if not os.environ.get("VERIF_NO_ASYNCGEN_HOOKS"):
+    sys.set_asyncgen_hooks(finalizer=_defer_finalizer)
+
+
+def flush_deferred():
+    """close the async generators that were abandoned during the last observation (after it was recorded)"""
+    n = 0
+    while DEFERRED and n < 10000:
+        agen = DEFERRED.pop()
+        n += 1
+        try:
+            drive(agen.aclose())
+        except BaseException:  # noqa: B036
+            pass
 
 
 def exc_name(exc):
@@ -243,7 +295,7 @@ def _respond(script, idx, st, log):
     if tag == "raise":
         st.failed += 1
         log.append(["srcerr", st.name, val])
-        raise UserExc(val)
+        raise user_exc(val)
     log.append(["item", st.name, canon(val)])
     return (val,)
 
